@@ -15,7 +15,7 @@ from mzverif.props import C06
 
 ID = "C15"
 LEVEL = "exploration"
-TECHNIQUE = "explicit product of the parameter space as reference: every element family exhaustively, metamorphic restriction of the real enumeration, validity predicate on the raw space (340 step-tokenizer tuples), exhaustive Hamming neighbourhood of the legacy images, identity under use / save-load / ZANJ, differential across interpreters with different hash seeds, visiting orders and call histories; thorough: the full space of 5,878,656 tokenizers"
+TECHNIQUE = "explicit product of the parameter space as reference: every element family exhaustively, metamorphic restriction of the real enumeration, histories of enumerations under different validators in one process, validity predicate on the raw space (340 step-tokenizer tuples), exhaustive Hamming neighbourhood of the legacy images, identity under use / save-load / ZANJ, differential across interpreters with different hash seeds, visiting orders and call histories; thorough: the full space of 5,878,656 tokenizers"
 RULE = (
     "family case = element family (9); restriction case = (subset of coordinate, adjacency and path configurations accepted by extra "
     "validation functions) -> the enumeration must be exactly the explicit product; identity case = tokenizer parameter tuple (name, "
